@@ -103,6 +103,8 @@ def observables(uniform):
     O["laplacian(2, rescale)"] = lambda H: _mat(xgi.laplacian(H, order=2, rescale_per_node=True, index=True))
     O["multiorder_laplacian"] = lambda H: _mat(xgi.multiorder_laplacian(H, [1, 2], [1, 0.5], index=True))
     O["normalized_hypergraph_laplacian"] = lambda H: _mat(xgi.normalized_hypergraph_laplacian(H, index=True))
+    O["normalized_hypergraph_laplacian(weighted)"] = lambda H: _mat(xgi.normalized_hypergraph_laplacian(H, weighted=True, sparse=False, index=True))
+    O["degree(weight)"] = lambda H: {N(n): v for n, v in H.nodes.degree(weight="weight").asdict().items()}
     O["to_line_graph"] = lambda H: _graph(xgi.to_line_graph(H), "e")
     O["to_graph"] = lambda H: _graph(xgi.to_graph(H), "n")
     return O
@@ -233,6 +235,8 @@ def _work(spec):
     uniform = _is_uniform(spec)
     O = observables(uniform)
     m = len(spec["edges"])
+    spec = dict(spec)
+    spec["eattr"] = {i: {"weight": [0.5, 2, 1.5, 3][i % 4]} for i in range(m)}  # distinct weights travel with the edges
     base_spec = F.relabel(spec, edge_ids=list(range(m)))
     Hb = F.build(base_spec)
     base = evaluate(Hb, O)
